@@ -596,3 +596,74 @@ pub fn pct(b: &[u8]) -> String {
     }
     s
 }
+
+// ------------------------------------------------------------------ keep-alive client
+
+/// Sends requests one at a time over a persistent connection, reconnecting when the
+/// server closed it (e.g. after a hyper-level 400).
+pub struct KeepAlive {
+    addr: SocketAddr,
+    conn: Option<Conn>,
+    pub reconnects: u64,
+}
+
+impl KeepAlive {
+    pub fn new(addr: SocketAddr) -> KeepAlive {
+        KeepAlive { addr, conn: None, reconnects: 0 }
+    }
+    pub fn local_addr(&mut self) -> Option<SocketAddr> {
+        self.ensure().ok()?;
+        self.conn.as_ref().map(|c| c.local)
+    }
+    fn ensure(&mut self) -> Result<(), String> {
+        if self.conn.is_none() {
+            self.conn = Some(Conn::connect(self.addr).map_err(|e| format!("connect: {e}"))?);
+            self.reconnects += 1;
+        }
+        Ok(())
+    }
+    pub fn roundtrip(&mut self, req: &[u8], head: bool, timeout: Duration) -> ReadOutcome {
+        for attempt in 0..2 {
+            if let Err(e) = self.ensure() {
+                return ReadOutcome::Bad(e);
+            }
+            let c = self.conn.as_mut().unwrap();
+            if c.send(req).is_err() {
+                self.conn = None;
+                continue;
+            }
+            let r = c.read_response(head, timeout);
+            match &r {
+                ReadOutcome::Resp(resp) => {
+                    let close = resp.header("connection").iter().any(|v| v.eq_ignore_ascii_case(b"close")) || resp.version == "HTTP/1.0";
+                    if close {
+                        if let Some(c) = self.conn.take() {
+                            c.reset_on_close();
+                        }
+                    }
+                    return r;
+                }
+                ReadOutcome::Eof if attempt == 0 => {
+                    // the server had closed an idle connection: retry once on a fresh one
+                    self.conn = None;
+                    continue;
+                }
+                _ => {
+                    if let Some(c) = self.conn.take() {
+                        c.reset_on_close();
+                    }
+                    return r;
+                }
+            }
+        }
+        ReadOutcome::Bad("could not send".into())
+    }
+}
+
+impl Drop for KeepAlive {
+    fn drop(&mut self) {
+        if let Some(c) = self.conn.take() {
+            c.reset_on_close();
+        }
+    }
+}
